@@ -137,6 +137,15 @@ def gen(tier: str, seed: int) -> list[Case]:
             c = Case(cid=f"c15-siblings{j}-{'tr' if tr else 'no'}", files=files, opts=["--docstyle", ["plaintext", "numpydoc", "google"][j]] + (["-tr"] if tr else []), meta={"gt": gt, "pair": f"s{j}", "tr": tr}, reach=REACH)
             c.src = "src/proj"
             cases.append(c)
+    # packages without ground truth (C01's form library: tests/ and docs/ directories inside, every declaration form
+    # outside): only the relation between the two runs is judged
+    from ..core import gated_features
+    from . import c01
+
+    for i in range(2 if tier == "quick" else 40):
+        ks = c01.kitchen_sink(rng_for(seed, PID, "kitchen-sink", i), gated_features(), 230 + i)
+        for tr in (False, True):
+            cases.append(Case(cid=f"c15-kitchen{i}-{'tr' if tr else 'no'}", files=ks, opts=["--docstyle", ["numpydoc", "plaintext"][i % 2]] + (["-nc"] if i % 2 else []) + (["-tr"] if tr else []), meta={"gt": [], "pair": f"k{i}", "tr": tr}, reach=REACH))
     return cases
 
 
@@ -183,6 +192,14 @@ def make_judge(chk: Check):
         store.setdefault(pair, {})[tr] = rec["tree"]
         if len(store[pair]) == 2:
             a, b = store[pair][False], store[pair][True]
+            # whatever is generated without the flag comes from files outside test/docs directories: the flag makes
+            # no difference to it (stubs of classes of other libraries included)
+            for k in sorted(a):
+                # (a placeholder for a class of a filtered file that regular code uses becomes the real stub with the flag)
+                if k.endswith(".sdsstub") and not any(part in FILTERED for part in k.split("/")):
+                    if b.get(k) != a[k]:
+                        viols.append(Viol("flag-changes-unaffected-stub", "any-stub-of-the-run-without-flag", {"stub": k, "in_flag_run": k in b}))
+                    chk.case_ok(None)
             unaffected = [g for g in gt if not g["filtered"]]
             for g in unaffected:
                 # stub file of this module: same relative path in both trees
